@@ -123,6 +123,20 @@ def do_call(sess, kind, names):
     import hdl21 as h
 
     ms = sess.mods(names)
+    if kind == "badparent":
+        # ANOTHER parent of these modules, which fails late in elaboration (a mis-sized array connection is only found after
+        # everything below it had its bundles flattened); the design itself is not part of it
+        bad = h.Module(name=f"BadParent_{next(build._counter)}")
+        for k, m in enumerate(ms):
+            sp, bp = refsem.iface(sess.design, ["mod", names[k]])  # the original, bundle-level ports
+            bad.add(h.Instance(of=m)(**{p: h.NoConn() for p in list(sp) + list(bp)}), name=f"u{k}")
+        s3 = bad.add(h.Signal(width=3), name="s3")
+        bad.add(h.InstanceArray(build.leaf_call("E2", 990), 2)(x=s3, y=h.NoConn()), name="arr")
+        try:
+            h.elaborate(bad)
+        except Exception:
+            return None
+        return None
     arg = list(ms) if (isinstance(names, tuple) or len(ms) > 1) else ms[0]
     if kind == "elab":
         h.elaborate(arg)
@@ -165,6 +179,7 @@ def replay_history(rec, label, design, uid, history, late=False, sample=False, a
         rec.count("late-parent.histories")
     for step, (kind, names) in enumerate(history):
         rec.count("history.calls")
+        rec.count(f"history.{kind}")
         try:
             pkg = do_call(sess, kind, names)
         except Exception as e:
@@ -304,7 +319,7 @@ def histories_for(design, rng, exhaustive: bool, n_sampled: int):
         perm = rng.sample(names, k)
         h_ = []
         for n in perm:
-            kind = rng.choice(["elab", "proto", "netlist"])
+            kind = rng.choice(["elab", "proto", "netlist", "badparent"])
             if rng.random() < 0.25 and len(perm) > 1:
                 grp = tuple(rng.sample(perm, rng.randint(2, len(perm))))
                 h_.append((kind, grp))
